@@ -1,2 +1,19 @@
 #!/bin/sh
-exit 0
+# setup.sh — build the framework from files on disk only (offline): Coq development (full .vo build),
+# extraction + OCaml drivers, Rust harness for every feature configuration.
+set -e
+cd "$(dirname "$0")"
+export CARGO_NET_OFFLINE=true
+tools/build_model.sh
+python3 - <<'PY'
+import sys
+sys.path.insert(0, 'tools')
+import engine
+res = engine.build_harness(list(engine.CONFIGS))
+bad = [c for c, (ok, out) in res.items() if not ok]
+for c in bad:
+    print(res[c][1][-2000:])
+print('harness configs built:', [c for c in res if c not in bad], 'failed:', bad)
+sys.exit(1 if bad else 0)
+PY
+echo SETUP-OK
